@@ -97,6 +97,32 @@ func (w *World) comparisonUnits(h *ssa.Function, left, right ssa.Value) []*cmpUn
 					ri = k
 				}
 			}
+			if li < 0 && ri < 0 {
+				// the operands handed on after a type assertion (`nodeSetsCompare(leftNodeSet, rightNodeSet)`)
+				assertedOf := func(a ssa.Value) ssa.Value {
+					switch x := stripConv(a).(type) {
+					case *ssa.TypeAssert:
+						return x.X
+					case *ssa.Extract:
+						if ta, ok := x.Tuple.(*ssa.TypeAssert); ok && x.Index == 0 {
+							return ta.X
+						}
+					}
+					return nil
+				}
+				for k, a := range c.Call.Args {
+					switch assertedOf(a) {
+					case u.Left:
+						if li < 0 {
+							li = k
+						}
+					case u.Right:
+						if ri < 0 {
+							ri = k
+						}
+					}
+				}
+			}
 			if li < 0 || ri < 0 || li >= len(g.Params) || ri >= len(g.Params) {
 				return
 			}
@@ -513,6 +539,12 @@ func checkC05(w *World) {
 			pg := positiveGuards(c.Guards)
 			if strings.Contains(pg, "NodeSet") && !strings.Contains(pg, "Bool") {
 				perNode := c.InLoop && (derivesFromLoopElement(c.X) || derivesFromLoopElement(c.Y))
+				if pg == "L:NodeSet R:NodeSet" {
+					// every pair: each side is the node of a loop over its own set (a fixed node of one set, `left[0]`,
+					// compared with the nodes of the other decides wrongly when the other set is empty or the first
+					// node is not the one that differs)
+					perNode = c.InLoop && derivesFromLoopElement(c.X) && derivesFromLoopElement(c.Y)
+				}
 				w.check(P, "R05.3", fmt.Sprintf("%s: comparison #%d [%s] is made per node", nt, i+1, pg), c.In.Pos(), perNode, fmt.Sprintf("the comparison sits inside the loop over the node-set and compares that loop's node: %v (summaries such as min/max of the set lose NaN and non-numeric nodes)", perNode))
 			}
 		}
